@@ -294,6 +294,34 @@ int main(int argc, char** argv)
                mon::fmt("%s: sandbox_reinterpret_cast<unsigned char*>(tainted<int(*)(int)> address of a sandbox function) is the tainted data pointer %p (%s); *p, p[1], p+16 and rlbox::memcpy from it are accepted",
                         Cfg::name, (void*)next, whose(next)));
     }
+    // directed prelude: sandbox_static_cast within a class hierarchy and assign_raw_pointer with a derived-class pointer --
+    // conversions in which C++ itself adjusts the address (the B2 sub-object of D lies 4 bytes into D).  The result must
+    // be inside the sandbox or the operation aborts, whatever address the sandbox chose.
+    {
+      struct B1 { int a; };
+      struct B2 { int b; };
+      struct D : B1, B2 { int c; };
+      for (auto& inp : live) {
+        Inst& in = *inp;
+        for (int dir = 0; dir < 3; dir++) {
+          for (uintptr_t at : { in.base, in.base + 4, in.base + 8, in.base + 4096, in.base + in.size - 12, in.base + in.size - 8, in.base + in.size - 4 }) {
+            uintptr_t next = 0;
+            const char* nm = dir == 0 ? "sandbox_static_cast<B2*>(D*)" : dir == 1 ? "sandbox_static_cast<D*>(B2*)" : "tainted<B2*>::assign_raw_pointer(D*)";
+            mon::ctx("chain/cast | directed %s at base%+lld", nm, (long long)(at - in.base));
+            bool ab = mon::aborts([&] {
+              if (dir == 0) next = reinterpret_cast<uintptr_t>(sandbox_static_cast<B2*>(as<D>(in, at)).UNSAFE_unverified());
+              else if (dir == 1) next = reinterpret_cast<uintptr_t>(sandbox_static_cast<D*>(as<B2>(in, at)).UNSAFE_unverified());
+              else { tainted<B2*, S> t; t.assign_raw_pointer(*in.sb, reinterpret_cast<D*>(at)); next = reinterpret_cast<uintptr_t>(t.UNSAFE_unverified()); }
+            });
+            mon::evals();
+            if (ab) { n_abort++; continue; }
+            if (!chk(in, next))
+              report("cast", "base-class-adjustment/outside-without-abort",
+                     mon::fmt("%s: %s on the in-sandbox pointer base%+lld produced the tainted pointer base%+lld (%s) without aborting", Cfg::name, nm, (long long)(at - in.base), (long long)(next - in.base), whose(next)));
+          }
+        }
+      }
+    }
     // directed prelude: address-of every field of a struct pointer whose
     // pointee straddles the region end (address computation only, no access)
     for (auto& inp : live) {
